@@ -31,9 +31,25 @@ TJustify == /\ IsEvent("Justify")
             /\ Ev.finite
             /\ (Ev.nojust => Ev.gids = gids)          \* fonts without justification passes: same glyph ids
 
+\* inside a justify call (hook events 6 and 7; spec/JustifyLinks.tla is the design these facts come from):
+\* with the line-end markers in, the chain the passes walk is doubly linked (LinkedWhilePassesRun) and - unless the line
+\* is reversed for the call - leads from the leading marker to the trailing one (MarkersReachable; asserted for left-to-right lines
+\* without attached slots, the lines JustifyLinks describes - where "the next sibling" is the next slot: behind a cluster whose marks end the line, the base's sibling
+\* link still names the first base of the NEXT line - gr_slot_linebreak_before clears only the sibling of the slot right
+\* before the cut - and the trailing marker is put there for the duration of the call; in a right-to-left segment the sibling links run
+\* backwards altogether: observation F12 in DESIGN.md);
+\* with the markers out and the ends of the line put back, the line is a doubly linked chain from its first slot to its
+\* last one again (ChainRestored, before the line is reversed back)
+TMarkers == /\ IsEvent("Markers")
+            /\ Ev.linked = 1 /\ ((Ev.rev = 0 /\ Ev.allbase = 1) => Ev.reach = 1)
+            /\ UNCHANGED <<vars, gids>>
+TUnmarked == /\ IsEvent("Unmarked")
+             /\ Ev.linked = 1 /\ Ev.reach = 1
+             /\ UNCHANGED <<vars, gids>>
+
 TDestroy == IsEvent("Destroy") /\ UNCHANGED <<vars, gids>>
 
-TNext == TSeg \/ TBreak \/ TJustify \/ TDestroy
+TNext == TSeg \/ TBreak \/ TJustify \/ TMarkers \/ TUnmarked \/ TDestroy
 TSpec == TInit /\ [][TNext]_tvars
 Accepted == TLCGet("stats").diameter - 1 = Len(Log)
 =============================================================================
